@@ -573,6 +573,27 @@ OPEN_WITNESSES = [
   </xs:sequence></xs:complexType></xs:element>
 </xs:schema>
 """}, "docs": ["<m><c>0</c><name>1</name><c>2</c><c>3</c></m>"]},
+    # the XSD analogue of C16-F9: the name Tag occurs as a single particle and inside the repeated choice; with compound
+    # fields UpdateAttributesEffectiveChoice regroups only between the first and last duplicate, k2 stays a field of its own
+    {"name": "F10b-single-particle-and-repeated-choice", "root": "r", "sources": {"main.xsd": XSH + """>
+  <xs:element name="r"><xs:complexType><xs:sequence>
+    <xs:element name="f" type="xs:string"/>
+    <xs:element name="Tag" type="xs:date"/>
+    <xs:choice minOccurs="0" maxOccurs="unbounded">
+      <xs:element name="Tag" type="xs:date"/>
+      <xs:element name="k2" type="xs:boolean"/>
+    </xs:choice>
+  </xs:sequence></xs:complexType></xs:element>
+</xs:schema>
+"""}, "docs": ["<r><f>x</f><Tag>2001-01-01</Tag><k2>true</k2><Tag>2001-01-02</Tag><Tag>2001-01-03</Tag></r>"]},
+    # the XSD analogue of C16-F10: the same element name in two sibling choices is merged into ONE single-valued field
+    {"name": "F19-name-in-two-choices-single-field", "root": "r", "sources": {"main.xsd": XSH + """>
+  <xs:element name="r"><xs:complexType><xs:sequence>
+    <xs:choice><xs:element name="b" type="xs:int"/><xs:element name="o" type="xs:date"/></xs:choice>
+    <xs:choice><xs:element name="b" type="xs:int"/><xs:element name="c" type="xs:boolean"/></xs:choice>
+  </xs:sequence></xs:complexType></xs:element>
+</xs:schema>
+"""}, "docs": ["<r><b>1</b><b>2</b></r>", "<r><o>2001-01-01</o><c>true</c></r>"]},
     {"name": "F11-namespaces-style-shadowing", "root": "envelope", "variants": [{"structure_style": "namespaces"}, {"structure_style": "namespaces"}],
      "sources": {"main.xsd": XSH + """ xmlns:a="http://example.com/ns/a">
   <xs:import namespace="http://example.com/ns/a" schemaLocation="part1.xsd"/>
@@ -1129,6 +1150,16 @@ def classify_codegen(run):
     return None
 
 
+def cm_names(c):
+    if c[0] == "el":
+        return [c[1]]
+    if c[0] == "any":
+        return []
+    if c[0] == "occ":
+        return cm_names(c[3])
+    return [q for x in c[1] for q in cm_names(x)]
+
+
 def has_other_wildcard(c):
     if c[0] == "any":
         return c[1][0] == "other"
@@ -1153,6 +1184,11 @@ def classify_pair(rr, tc, info):
         return "imported-no-namespace-schema-gets-importer-namespace"
     t = rr["p"]["schema"]["types"][tc[0]]
     word = info.get("word") or []
+    if info.get("failed") == ["content"] and t["content"][0] in ("elems", "mixed"):
+        names = cm_names(t["content"][1])
+        dup = [q for q in set(word) if word.count(q) >= 2 and names.count(q) >= 2]
+        if dup and not any(q.startswith("\x00") for q in word):
+            return "repeated-element-name-single-field-capacity"
     if info.get("failed") == ["nillable_bound"]:
         decls = {d["qname"]: d for d in t["decls"]}
         if all(decls[q].get("named_simple") for q in info.get("unbound_nillables", []) if q in decls):
